@@ -81,6 +81,7 @@ type hist struct {
 	fs            *fsReplica       // the replica that falls behind and catches up through the real full sync
 	pendingEpoch  func(r *replica) // re-delivers the injected epoch results (stand-in for on-chain data)
 	cfg           *scenCfg
+	life          *lifeCtx // identity-lifecycle scenario (life.go): roles, per-step controls, extended projection
 }
 
 type txRec struct {
@@ -94,6 +95,7 @@ type txRec struct {
 type schedule []map[string]string
 
 type scenCfg struct {
+	life       bool     // identity-lifecycle scenarios (life.go): no snapshots, long sessions, rich accounts
 	relQuiet   bool     // relationship scenarios: no random transactions, everybody stays validated
 	graph      [][2]int // delegation graph scenario (edges delegator -> delegatee over keys 1..4), exported by TLC from EpochLoop.tla
 	heavy      bool
@@ -135,6 +137,17 @@ func newHist(seed int64, id int, cfg *scenCfg, out *tr.W) *hist {
 	w.ValCfg.ShortSessionDuration = 2 * time.Minute
 	w.ValCfg.LongSessionDuration = 10 * time.Minute
 	w.FirstCeremony = 1693666800 // Sat 2023-09-02 15:00:00 UTC
+	if cfg.life {
+		// a lifecycle path puts many one-attempt blocks (10 s apart at least) into one session, and a snapshot block would
+		// apply pending status switches at a height the path does not name
+		w.Cons.SnapshotRange = 1 << 40
+		// one common switch range: pending status / delegation / discrimination switches are all applied by the same
+		// identity-update block, and the driver can keep the attempts of a path clear of it (lifeAlign)
+		w.Cons.StatusSwitchRange, w.Cons.DelegationSwitchRange, w.Cons.DiscriminationSwitchRange = lifeRange, lifeRange, lifeRange
+		w.ValCfg.FlipLotteryDuration = 15 * time.Minute
+		w.ValCfg.ShortSessionDuration = 15 * time.Minute
+		w.ValCfg.LongSessionDuration = 30 * time.Minute
+	}
 	st := []state.IdentityState{state.Verified, state.Human, state.Newbie, state.Verified, state.Candidate, state.Suspended, state.Zombie}
 	w.Allocs = append(w.Allocs, sim.Alloc{Key: 0, State: state.Verified, Balance: sim.Dna(100000, 1), Stake: sim.Dna(1000, 1)})
 	if cfg.graph != nil {
@@ -142,13 +155,21 @@ func newHist(seed int64, id int, cfg *scenCfg, out *tr.W) *hist {
 		w.Cons.DelegationSwitchRange = 5
 	}
 	for i := 1; i <= 7; i++ {
-		w.Allocs = append(w.Allocs, sim.Alloc{Key: i, State: st[i-1], Balance: sim.Dna(int64(2000+rnd.Intn(3000)), 1), Stake: sim.Dna(int64(50+rnd.Intn(500)), 1)})
+		bal := sim.Dna(int64(2000+rnd.Intn(3000)), 1)
+		if cfg.life {
+			bal = sim.Dna(int64(30000+rnd.Intn(3000)), 1)
+		}
+		w.Allocs = append(w.Allocs, sim.Alloc{Key: i, State: st[i-1], Balance: bal, Stake: sim.Dna(int64(50+rnd.Intn(500)), 1)})
 	}
-	w.Allocs = append(w.Allocs, sim.Alloc{Key: 8, State: state.Undefined, Balance: sim.Dna(3000, 1)})
+	if cfg.life {
+		w.Allocs = append(w.Allocs, sim.Alloc{Key: 8, State: state.Undefined, Balance: sim.Dna(30000, 1)})
+	} else {
+		w.Allocs = append(w.Allocs, sim.Alloc{Key: 8, State: state.Undefined, Balance: sim.Dna(3000, 1)})
+	}
 	// more validated identities without a node of their own: pool members, invitees, committee members
 	for i := 9; i <= 14; i++ {
 		w.Allocs = append(w.Allocs, sim.Alloc{Key: i, State: []state.IdentityState{state.Verified, state.Newbie, state.Human}[i%3],
-			Balance: sim.Dna(int64(1500+rnd.Intn(1500)), 1), Stake: sim.Dna(int64(20+rnd.Intn(200)), 1)})
+			Balance: sim.Dna(int64(1500+rnd.Intn(1500)+lifeExtra(cfg)), 1), Stake: sim.Dna(int64(20+rnd.Intn(200)), 1)})
 	}
 	if cfg.big {
 		for i := 24; i < nkeys; i++ {
@@ -843,6 +864,12 @@ func (h *hist) block() bool {
 				m[k] = v
 			}
 			m["pool"] = errClass(err)
+			if h.life != nil && err != nil && h.lifeMayInject(r) {
+				// lifecycle scenarios: what the honest mempool refused is offered by a proposer whose mempool does not filter,
+				// so that the rules a BLOCK has to satisfy are exercised too
+				prop.n.Pool.VerifInjectExecutable(r.tx)
+				m["injected"] = true
+			}
 			subs = append(subs, m)
 		}
 		if h.cfg.replays && h.rnd.Intn(3) == 0 {
@@ -851,6 +878,9 @@ func (h *hist) block() bool {
 			}
 		}
 		delay := int64(20 + h.rnd.Intn(100))
+		if h.life != nil {
+			delay = h.life.delay(h)
+		}
 		// cross the validation time windows now and then
 		if h.cfg.epochs {
 			nv := h.ref.n.App.State.NextValidationTime().Unix()
@@ -879,8 +909,15 @@ func (h *hist) block() bool {
 			}
 			fmt.Fprintf(os.Stderr, "PROBE-PROP height=%d %v\n", height, roots)
 		}
-		h.inZone(prop, func() { blk = prop.n.Propose(delay) })
+		if h.life != nil && h.life.craft != nil {
+			blk = h.life.craft(prop, delay)
+		} else {
+			h.inZone(prop, func() { blk = prop.n.Propose(delay) })
+		}
 		data = sim.Encode(blk)
+		if h.life != nil {
+			h.lifeSweepPools()
+		}
 	}
 	if h.cfg.replays && !empty && h.rnd.Intn(3) == 0 {
 		h.crafted(prop, blk, height)
@@ -1034,6 +1071,9 @@ func (h *hist) block() bool {
 		"txs": txs, "subs": subs, "verdicts": verdicts, "hists": hists, "obs": obs, "canon": canon, "refused": false,
 		"pre": pre, "post": post, "epochLen": epochLen, "time": blk.Header.Time()}
 	h.addViews(line, height)
+	if h.life != nil {
+		delete(line, "pre") // (nothing that reads lifecycle traces uses it; it is half of a line)
+	}
 	h.out.Emit(line)
 	h.prevLed = post
 	h.flagsAt[height] = int(flags)
@@ -1432,9 +1472,17 @@ func (h *hist) injectEpoch(height uint64) {
 		h.out.Emit(tr.M{"ev": "EpochPools", "hid": h.id, "h": height, "pools": len(keys)})
 	}
 	epoch, shards := s.Epoch(), int(s.ShardsNum())
+	var full map[common.ShardId]*types.ValidationResults
+	if h.life != nil && h.life.epoch != nil {
+		outs, full = h.life.epoch(h, outs)
+	}
 	h.pendingEpoch = func(r *replica) {
 		cp := make([]ceremony.VerifOutcome, len(outs))
 		copy(cp, outs)
+		if full != nil {
+			r.vc.VerifSetEpochResultFull(height, epoch, cp, lifeCopyResults(full, shards), false)
+			return
+		}
 		r.vc.VerifSetEpochResult(height, epoch, shards, cp, nil, false)
 	}
 	for _, r := range h.reps {
@@ -1456,6 +1504,7 @@ func main() {
 	doubleDeleg := flag.Bool("double-delegate", false, "run the minimal double-DelegateTx scenario first (history id 900)")
 	only := flag.Int("only", -1, "run only the history with this index (same seeds and schedules as in a full run)")
 	relFile := flag.String("rel", "", "relationship attempt paths exported by TLC from Relations.tla (json lines)")
+	lifeFile := flag.String("life", "", "identity-lifecycle paths exported by TLC from Lifecycle.tla (json lines)")
 	graphFile := flag.String("graphs", "", "delegation graphs exported by TLC from EpochLoop.tla (json lines); one history per graph")
 	heavy := flag.Bool("identity-heavy", false, "bias the generator towards identity-changing events")
 	filterFile := flag.String("filter", "", "filter scenarios exported by TLC from Filter.tla (json lines)")
@@ -1497,6 +1546,10 @@ func main() {
 	if *filterFile != "" {
 		n, blocks, real := runFilter(*filterFile, seed, w)
 		fmt.Fprintf(os.Stderr, "histories=%d blocks=%d refused=0 realised=%d lines=%d\n", n, blocks, real, w.N)
+		return
+	}
+	if *lifeFile != "" {
+		runLife(*lifeFile, seed, w)
 		return
 	}
 	if *gasFile != "" {
